@@ -430,10 +430,11 @@ def dividends(R, rep):
 
 def summary_reads_own_year(R, rep, rule="R6"):
     """every tax-year summary takes its dividend figures from the aggregate filed under ITS OWN tax year: in each function that builds a
-    `TaxYearSummary` (helpers and carriers followed back to the caller's terms) the key of the look-up that feeds `dividend_income` /
-    `dividend_tax_paid` names the same year as the summary's `period` — it is the value `period` is built from, or `period.start_year()`.
-    A streaming rewrite that closes year Y when the first leg of year Z arrives and hands over Z's dividends gives Y the figures of a
-    later year — and which one depends on whether later disposals exist (seeded change C12-s8)."""
+    `TaxYearSummary` (helpers and carriers followed back to the caller's terms; a local closure's parameters replaced by the arguments of each
+    of its call sites) the key of the look-up that feeds `dividend_income` / `dividend_tax_paid` names the same year as the summary's `period`
+    — it is the value `period` is built from, or `period.start_year()`. A streaming rewrite that closes year Y when the first leg of year Z
+    arrives and hands over Z's dividends gives Y the figures of a later year — and which one depends on whether later disposals exist
+    (seeded change C12-s8)."""
     F = R.F
     SUM = "cgt_core::models::TaxYearSummary"
     cands = [b for b in F.bodies.values() if b.crate == "cgt_core" and b.kind in ("fn", "method") and "TaxYearSummary" in b.ret and P.user_written(F, b)]
@@ -447,12 +448,73 @@ def summary_reads_own_year(R, rep, rule="R6"):
             for i, t in cb.calls():
                 called.add(t["callee"])
     roots = [b for b in cands if b.id not in called] or cands
-    n = 0
+    count = [0]
 
     def strip(t):
         while isinstance(t, tuple) and t and t[0] in ("ref", "deref", "copied", "some") and len(t) > 1 and isinstance(t[1], tuple):
             t = t[1]
         return t
+
+    def call_site_substitutions(terms):
+        """[(substitution, tag)]: identity, or one substitution per call site of the local closure whose parameters occur in `terms`"""
+        cps = {x[1] for t0 in terms for x in subterms(t0) if isinstance(x, tuple) and x and x[0] == "cparam"}
+        if len(cps) != 1:
+            return [(lambda t: t, "")]
+        cid = next(iter(cps))
+        pb = F.bodies.get(F.bodies[cid].parent) if cid in F.bodies else None
+        if pb is None:
+            return [(lambda t: t, "")]
+        ptb = R.terms(pb, 0)
+        out = []
+        for j, u in pb.calls():
+            # the driver resolves `Fn::call(&closure, (args,))` to the closure body itself
+            direct = u["callee"] == cid
+            via_trait = parse_callee(u["callee"])[2] in ("call", "call_mut", "call_once") and cid in " ".join(u.get("aty") or [])
+            if not (direct or via_trait) or len(u["args"]) != 2:
+                continue
+            at = ptb.operand(u["args"][1])
+            if not (isinstance(at, tuple) and at and at[0] == "tuple"):
+                continue
+            argl = list(at[1])
+
+            def make_sub(argl):
+                def sub(t):
+                    if isinstance(t, tuple):
+                        if t and t[0] == "cparam" and t[1] == cid and isinstance(t[2], int) and 1 <= t[2] <= len(argl):
+                            return argl[t[2] - 1]
+                        return tuple(sub(x) for x in t)
+                    if isinstance(t, list):
+                        return [sub(x) for x in t]
+                    return t
+                return sub
+            out.append((make_sub(argl), "@call:" + pb.loc(u["sp"]).rsplit(":", 2)[-2]))
+        return out or [(lambda t: t, "")]
+
+    def judge(b, hb, st, name, per, dv, tag):
+        count[0] += 1
+        per_sub = list(subterms(per))
+        gets = [x for x in subterms(dv) if isinstance(x, tuple) and x and x[0] == "call" and parse_callee(x[1])[2] == "get"
+                and ("HashMap" in x[1] or "BTreeMap" in x[1]) and len(x[2]) == 2]
+        ok, why = False, f"`{name}` is {show(dv)[:90]}: not traceable to a look-up of the dividend aggregates"
+        if isinstance(dv, tuple) and dv and dv[0] == "const":
+            why = f"`{name}` is a constant: the year's dividends are not read"
+        for g in gets:
+            k = strip(g[2][1])
+            # the year the period is built from: the argument of `TaxPeriod::new(..)` where the period is constructed from a year —
+            # not just any value occurring in the period's term (a closure capture of another year also occurs there)
+            news = [x for x in per_sub if isinstance(x, tuple) and x and x[0] == "call" and x[1].endswith("TaxPeriod::new") and x[2]]
+            if news:
+                same = any(k == strip(x[2][0]) for x in news)
+            else:
+                same = any(k == x for x in per_sub)
+            if not same and isinstance(k, tuple) and k and k[0] == "call" and parse_callee(k[1])[2] == "start_year" and k[2]:
+                # `aggregates.get(&period.start_year())` with that very period
+                same = strip(k[2][0]) == strip(per)
+            ok = same
+            why = (f"`{name}` is read under the year the summary's own period is built from" if same else
+                   f"`{name}` is read under {show(k)[:60]} but the summary's period is built from {show(per)[:70]}: the summary of one tax year carries "
+                   "another year's dividends")
+        rep.ob(rule, f"{b.short}:{name}:own-year{tag}", ok, why, hb.loc(st["sp"]), key=f"{rule}:{b.short}:{name}:own-year")
 
     for b in roots:
         rg = R.region(b)
@@ -463,30 +525,13 @@ def summary_reads_own_year(R, rep, rule="R6"):
                 if rv["k"] != "agg" or rv["adt"] != SUM:
                     continue
                 f = rv["fields"]
-                per = ex["conv"](ex["tb"].operand(rv["ops"][f.index("period")]))
-                per_sub = list(subterms(per))
-                for name in ("dividend_income", "dividend_tax_paid"):
-                    if name not in f:
-                        continue
-                    n += 1
-                    dv = ex["conv"](ex["tb"].operand(rv["ops"][f.index(name)]))
-                    gets = [x for x in subterms(dv) if isinstance(x, tuple) and x and x[0] == "call" and parse_callee(x[1])[2] == "get"
-                            and ("HashMap" in x[1] or "BTreeMap" in x[1]) and len(x[2]) == 2]
-                    zero = show(dv) in ("ZERO", "Decimal::ZERO") or (isinstance(dv, tuple) and dv and dv[0] == "const")
-                    ok, why = False, f"`{name}` is {show(dv)[:90]}: not traceable to a look-up of the dividend aggregates"
-                    if zero:
-                        ok, why = False, f"`{name}` is a constant: the year's dividends are not read"
-                    for g in gets:
-                        k = strip(g[2][1])
-                        same = any(k == x for x in per_sub)
-                        if not same and isinstance(k, tuple) and k and k[0] == "call" and parse_callee(k[1])[2] == "start_year" and k[2]:
-                            x0 = strip(k[2][0])
-                            same = x0 == per or any(x0 == x for x in per_sub) or any(per == x for x in subterms(x0))
-                        ok = same
-                        why = (f"`{name}` is read under the year the summary's own period is built from" if same else
-                               f"`{name}` is read under {show(k)[:60]} but the summary's period is {show(per)[:70]}: the summary of one tax year carries another year's dividends")
-                    rep.ob(rule, f"{b.short}:{name}:own-year", ok, why, hb.loc(st["sp"]), key=f"{rule}:{b.short}:{name}:own-year")
-    if not n:
+                names = [nm for nm in ("dividend_income", "dividend_tax_paid") if nm in f]
+                per0 = ex["conv"](ex["tb"].operand(rv["ops"][f.index("period")]))
+                dvs = {nm: ex["conv"](ex["tb"].operand(rv["ops"][f.index(nm)])) for nm in names}
+                for vsub, tag in call_site_substitutions([per0] + list(dvs.values())):
+                    for nm in names:
+                        judge(b, hb, st, nm, vsub(per0), vsub(dvs[nm]), tag)
+    if not count[0]:
         rep.unresolved(rule, "summary-dividends", "no construction of a TaxYearSummary with dividend fields found")
 
 
